@@ -733,7 +733,7 @@ DFR8getrig(int32 file_id, uint16 ref, DFRrig *rig)
                     DFdifree(GroupID);
                     HGOTO_ERROR(DFE_GETELEM, FAIL);
                 }
-                if ((ntstring[2] != 8) || (ntstring[1] != DFNT_UCHAR)) {
+                if ((ntstring[2] != 8) || (ntstring[1] != DFNT_UCHAR && ntstring[1] != DFNT_UINT8)) {
                     DFdifree(GroupID);
                     HGOTO_ERROR(DFE_BADCALL, FAIL);
                 }
